@@ -301,7 +301,7 @@ func responseCarriesErrors(f *ssa.Function, resp ssa.Value, vc ssa.CallInstructi
 			fromResp := false
 			for _, o := range core.Origins(mu.Map) {
 				if u, ok := o.(*ssa.UnOp); ok {
-					if fa, ok := u.X.(*ssa.FieldAddr); ok && fa.X == resp {
+					if fa, ok := u.X.(*ssa.FieldAddr); ok && (fa.X == resp || core.SameObject(fa.X, resp)) {
 						fromResp = true
 					}
 				}
@@ -309,7 +309,7 @@ func responseCarriesErrors(f *ssa.Function, resp ssa.Value, vc ssa.CallInstructi
 					// stored into resp.Intents?
 					for _, ref := range *mm.Referrers() {
 						if st, ok := ref.(*ssa.Store); ok {
-							if fa, ok := st.Addr.(*ssa.FieldAddr); ok && fa.X == resp {
+							if fa, ok := st.Addr.(*ssa.FieldAddr); ok && (fa.X == resp || core.SameObject(fa.X, resp)) {
 								fromResp = true
 							}
 						}
